@@ -90,6 +90,17 @@ op!(c25_step_branch_empty, Instruction::Branch(Target::Resolved(kani::any())), S
 op!(c25_step_call_sym, Instruction::Call(Target::Resolved(kani::any())), Some(true));
 
 // operand-carrying opcodes with hostile operands (a hand-built or corrupted module controls them)
+// more instruction kinds on the minimal state (empty stack, pc 0): each must return Ok or Err, never unwind
+// (Gt/Lt/Eq and the fact/struct/effect opcodes — Publish, Create, Delete, Update, Emit, Query, FactCount, QueryStart —
+//  exceeded 150 s of CBMC each on this state: the typed pop of a Fact/Struct value drags the whole Value drop glue in)
+op!(c25_step_sub_empty, Instruction::Sub, Some(false));
+op!(c25_step_satadd_empty, Instruction::SaturatingAdd, Some(false));
+op!(c25_step_satsub_empty, Instruction::SaturatingSub, Some(false));
+op!(c25_step_savesp, Instruction::SaveSP, None);
+op!(c25_step_extcall_sym, Instruction::ExtCall(kani::any(), kani::any()), None);
+op!(c25_step_recall_sym, Instruction::Recall(Target::Resolved(kani::any())), None);
+op!(c25_step_serialize_empty, Instruction::Serialize, None);
+op!(c25_step_deserialize_empty, Instruction::Deserialize, None);
 op!(c25_step_mstructset_huge, Instruction::MStructSet(core::num::NonZeroUsize::MAX), Some(false));
 op!(c25_step_mstructget_huge, Instruction::MStructGet(core::num::NonZeroUsize::MAX), Some(false));
 
